@@ -274,7 +274,7 @@ fn states(w: &W3, base: &Ledger, thorough: bool) -> Vec<(String, Vec<Op3>, Ledge
 pub fn run_part(ctx: &Ctx, r: &mut Report) {
     let thorough = !ctx.tier.is_quick();
     let name = "c07-3pool-spl";
-    let (base, w) = w3::build(Kind::Spl, name, [false, false, false]);
+    let (base, w) = w3::build(Kind::Spl, name, [false, false, false], None);
     let vs = variants(&w, thorough);
     let mut c = Counts::default();
     let mut n_states = 0u64;
@@ -307,7 +307,7 @@ pub fn replay_part(case: &Value) -> Option<Result<(), String>> {
         return None;
     }
     let name = case["world"].as_str()?;
-    let (base, w) = w3::build(Kind::Spl, name, [false, false, false]);
+    let (base, w) = w3::build(Kind::Spl, name, [false, false, false], None);
     let root = case["root"].as_str()?;
     let seq = w3::roots(&w).into_iter().find(|r| r.0 == root)?.1;
     let mut l = w3::apply_all3(&base, &w, &seq);
